@@ -32,7 +32,7 @@ CLAIMED = {
              '(type arguments, defaults incl. int->float, example leaves, route attributes with schema defaults for absent '
              'ones, also on an untouched sibling route) the Api object carries exactly the declared value; Struct.all_fields '
              'is required-then-optional / parents-first for every optionality assignment of a depth-3 chain; '
-             'ApiNamespace.normalize leaves types, aliases and routes sorted and complete for symbolic names/versions; the '
+             'ApiNamespace.normalize leaves types, aliases and routes sorted and complete for symbolic names/versions; doc_unwrap equals its documented contract on symbolic text <= 6/7 chars; the '
              'implicit catch-all of every open/closed union chain, nullability through alias chains, annotations and '
              'deprecation markers at every site of a template (IR vs AST), and closure / acyclicity / ordering invariants '
              'of every accepted spec of the rule table; unqualified type names resolve in the declaring namespace for two namespaces declaring the same names, in both spec orders.',
@@ -91,7 +91,7 @@ CLAIMED = {
     'C08': dict(
         text='Bounded proof by symbolic execution of the validator classes with symbolic parameters AND symbolic values '
              '(all integers; all binary64 incl. NaN/inf; strings <= 4/6 chars against length bounds and a list of '
-             'regexes; bytes; lists <= 3/4 items; values of every wrong kind) against the Stone type semantics; plus the '
+             'regexes; bytes; lists <= 3/4 items; map key bounds; a finite list of naive / aware datetimes; values of every wrong kind) against the Stone type semantics; plus the '
              'generated classes of the catalogue: setattr on every primitive-built struct field and every typed union '
              'helper with symbolic values (valid shape and one wrong-kind mutation) succeeds iff a reference predicate '
              'derived from the stone.ir type accepts, reads back equal; user-typed struct fields and user-typed union members (incl. all-optional and empty structs, None) over a finite set of instances.',
@@ -140,7 +140,7 @@ CLAIMED = {
         ref='4 (C13)'),
     'C14': dict(
         text='Bounded proof by symbolic execution of the generated python_client methods (regenerated at check time) for '
-             'the 16 catalogue routes (two specs): symbolic argument values, every optional parameter passed or omitted, required '
+             'the 20 catalogue routes (two specs, incl. a namespace that only defines routes, camelCase argument fields and a field-less argument struct): symbolic argument values, every optional parameter passed or omitted, required '
              'parameters positional or by keyword, symbolic request() result: exactly one request with the ROUTES object, '
              'namespace, upload body, an argument whose every field equals the passed value or the spec default in value '
              'AND kind (tag defaults incl. cross-namespace; equal-valued defaults of different literal kinds), result '
